@@ -1,8 +1,10 @@
 package main
 
+import "strings"
+
 func init() {
 	register("C11", runC11, propMeta{
-		Explanation: "Decides structural necessary conditions of 'the result map is exactly the set of rules that returned in this call', for every execute method and every rule set: (M1) the store g.returnResult = make(...) dominates every rule execution, go statement, addResult call and every return other than the rb==nil one, so nothing of an earlier call survives and no nil map is written; (M2) every RuleEntity.Execute call site has its returned-flag tested on all paths and the true edge calls addResult with the RuleName of the same receiver and the value of the same call, and no other addResult call exists; (M3) in internal/base the third result of every (value, error, flag) evaluator is false, a child's flag passed through, or true only in ReturnStatement/BreakStmt/ContinueStmt, and a true flag in ReturnStatement.Evaluate is returned only with a nil error; (M4) RuleEntity.Execute maps the zero reflect.Value to a nil interface; (M5) addResult holds g.lock around the map write and is the only writer of the map. Not decided: the values themselves.",
+		Explanation: "Decides structural necessary conditions of 'the result map is exactly the set of rules that returned in this call', for every execute method and every rule set: (M1) the store g.returnResult = make(...) dominates every rule execution, go statement, addResult call and every return other than the rb==nil one, so nothing of an earlier call survives and no nil map is written; (M2) every RuleEntity.Execute call site has its returned-flag tested on all paths and the true edge calls addResult with the RuleName of the same receiver and the value of the same call, and no other addResult call exists; (M3) in internal/base the third result of every (value, error, flag) evaluator is false, a child's flag passed through, or true only in ReturnStatement/BreakStmt/ContinueStmt, and a true flag in ReturnStatement.Evaluate is returned only with a nil error; (M4) RuleEntity.Execute maps the zero reflect.Value to a nil interface; and nil is handed up only for that zero value, v.Interface() otherwise; (M5) addResult holds g.lock around the map write and is the only writer of the map; (M6) in IfStmt.Evaluate a true condition evaluates its branch and an existing else runs when all conditions are false, and in ForStmt.Evaluate and ForRangeStmt.Evaluate every pass of the loop evaluates the body, so a `return` placed in a branch or a loop body is reached. Not decided: the values themselves.",
 		Assumptions: []string{"reflect, sync and the Go memory model behave as documented", "the host does not write Gengine.returnResult (unexported)"},
 		Trusted:     commonTrusted,
 	})
@@ -42,5 +44,15 @@ func init() {
 			c.ruleA4("M5-joined-before-return", fn, isRuleExec, m.errList())
 		}
 		c.Min("M5-joined-before-return", 100)
+		// a `return` inside a branch or a loop body is reached: a true condition evaluates its branch, every
+		// pass of a loop evaluates the body (the part of the statement rules of C02 that bears on the result map)
+		c.only = func(key string) bool {
+			return strings.HasSuffix(key, "-runs-body") || strings.HasSuffix(key, "-runs-else")
+		}
+		c.ruleS2("M6-body-evaluated")
+		c.ruleS3("M6-body-evaluated")
+		c.ruleS4("M6-body-evaluated")
+		c.only = nil
+		c.Min("M6-body-evaluated", 5)
 	}
 }
